@@ -11,6 +11,7 @@ import (
 	"strconv"
 	"strings"
 	"sync"
+	"time"
 
 	"github.com/mark3labs/flyt"
 )
@@ -208,6 +209,10 @@ type permErr struct{}
 func (permErr) Error() string   { return "connection refused" }
 func (permErr) Temporary() bool { return false }
 func (permErr) Timeout() bool   { return false }
+
+// … and carries a retry-after hint (as an error built from a rate-limited HTTP response does): data of the caller's, nothing the
+// retry loop is documented to look at — the configured wait is the wait
+func (permErr) RetryAfter() time.Duration { return time.Hour }
 
 func userError(n int) error {
 	errMu.Lock()
